@@ -178,6 +178,10 @@ theorem C01_handlers (env : Env) (t : Tables) (rec : Rec) (ctx : Ctx) (schema do
     | exact (hExcludes_drop _ _ _ _ _ _ _ _ h).1
     | exact hSchema_drop _ _ _ _ _ _ _ _ _ _ h
     | (simp [raisePy] at h; done)
+    | (simp only [] at h
+       split at h
+       · simp only [Except.ok.injEq] at h; subst h; rfl
+       · simp [raisePy] at h)
 
 /-! ### verdict and update -/
 
